@@ -18,7 +18,12 @@ static Report R;
 static Args A;
 
 using TrA = Tr<1>;
-using TrB = Tr<2, true>;
+struct SrcB { int v; };
+struct TrB : Tr<2, true> {
+  TrB() : Tr<2, true>() {}
+  explicit TrB(int x) : Tr<2, true>(x) {}
+  TrB(const SrcB& s) : Tr<2, true>(s.v + 200) {}  // converting construction of a non-last alternative; may throw
+};
 struct Src { int v; };
 struct Conv : Tr<3> {
   Conv() : Tr<3>() {}
@@ -28,7 +33,7 @@ struct Conv : Tr<3> {
 using V3 = nop::Variant<TrA, TrB, Conv>;
 using V2 = nop::Variant<TrA, TrB>;
 
-struct MV { int index = -1; int value = 0; bool unspec = false; };
+struct MV { int index = -1; int value = 0; bool unspec = false; bool open = false; };  // open: read back from the object (resolve)
 struct Model { MV a, b, c; };
 
 struct World {
@@ -58,10 +63,12 @@ enum {
   THROW_COPY,      // arm TrB, x = y where y holds TrB and x does not
   THROW_BECOME_B,  // arm TrB, x.Become(1)
   OBSERVE,         // Visit (const and non-const), get<T>, get<I>, is<T>, index_of
+  ASSIGN_CONVB,        // x = SrcB{y}: converting assignment -> TrB (not the last alternative of a and b)
+  THROW_ASSIGN_CONVB,  // the same with the TrB construction armed to throw
 };
 static const char* kOpName[] = {"=TrA", "=TrB", "=Src(conv)", "=Conv", "=Empty", "copy=", "move=", "Become", "rebuild-copy",
                                 "rebuild-move", "rebuild-TrB", "rebuild-Src", "rebuild-Empty", "throw:=TrB", "throw:copy=",
-                                "throw:Become(1)", "observe"};
+                                "throw:Become(1)", "observe", "=SrcB(conv)", "throw:=SrcB(conv)"};
 static const char* kVar = "abc";
 static std::string opname(const Op& o) {
   std::string s = std::string(1, kVar[o.x]) + "." + kOpName[o.code];
@@ -93,6 +100,8 @@ static std::vector<Op> alphabet() {
     ops.push_back({THROW_ASSIGN_B, x, 2});
     ops.push_back({THROW_BECOME_B, x, 0});
     ops.push_back({OBSERVE, x, 0});
+    ops.push_back({ASSIGN_CONVB, x, 1});
+    ops.push_back({THROW_ASSIGN_CONVB, x, 2});
   }
   return ops;
 }
@@ -140,6 +149,10 @@ static void model_step(Model& m, const Op& o) {
       if (t.index != 1) t = MV();  // Destruct, construction throws: empty
       break;
     case OBSERVE: break;
+    case ASSIGN_CONVB: t = {1, o.y + 200, false, false}; break;
+    // The converting construction throws. The property allows the variant to end up empty or to keep / hold one alive
+    // element; which of the two is read back from the object, and the lifetime accounting decides whether that is true.
+    case THROW_ASSIGN_CONVB: t.open = true; break;
   }
 }
 
@@ -257,10 +270,15 @@ static std::string real_step(World& w, const Op& o) {
         life().throw_countdown = 0;
         break;
       case OBSERVE: break;
+      case ASSIGN_CONVB: case THROW_ASSIGN_CONVB:
+        if (o.code == THROW_ASSIGN_CONVB) life().throw_countdown = 1;
+        if (o.x == 2) *w.c = SrcB{o.y}; else on3([&](V3& v) { v = SrcB{o.y}; });
+        life().throw_countdown = 0;
+        break;
     }
   } catch (const ArmedThrow&) {
     life().throw_countdown = 0;
-    if (o.code != THROW_ASSIGN_B && o.code != THROW_COPY && o.code != THROW_BECOME_B) diag = "unexpected exception";
+    if (o.code != THROW_ASSIGN_B && o.code != THROW_COPY && o.code != THROW_BECOME_B && o.code != THROW_ASSIGN_CONVB) diag = "unexpected exception";
   }
   life().throw_countdown = 0;
   // a rebuild whose constructor threw leaves a null pointer: give the world an empty variant back
@@ -275,12 +293,26 @@ static std::string mvstr(const MV& m) {
 }
 static std::string canon(const Model& m) { return mvstr(m.a) + " " + mvstr(m.b) + " " + mvstr(m.c); }
 
+// states the model leaves open are read back from the objects
+static void resolve(World& w, Model& m) {
+  MV* ms[3] = {&m.a, &m.b, &m.c};
+  for (int x = 0; x < 3; x++) {
+    if (!ms[x]->open) continue;
+    int idx, val;
+    if (x == 2) observe_into(*w.c, &idx, &val); else observe_into(x == 0 ? *w.a : *w.b, &idx, &val);
+    *ms[x] = MV();
+    ms[x]->index = idx;
+    ms[x]->value = val;
+  }
+}
 // compare the real world with the model; returns "" if consistent
-static std::string compare(World& w, const Model& m) {
+static std::string compare(World& w, Model& m) {
+  resolve(w, m);
   int idx, val;
   const MV* ms[3] = {&m.a, &m.b, &m.c};
   for (int x = 0; x < 3; x++) {
     if (x == 2) observe_into(*w.c, &idx, &val); else observe_into(x == 0 ? *w.a : *w.b, &idx, &val);
+    if (idx < -1 || idx >= nalts(x)) return std::string(1, kVar[x]) + ".index() = " + std::to_string(idx) + " is out of range";
     if (idx != ms[x]->index) return std::string(1, kVar[x]) + ".index() = " + std::to_string(idx) + ", model " + std::to_string(ms[x]->index);
     if (idx >= 0 && !ms[x]->unspec && val != ms[x]->value)
       return std::string(1, kVar[x]) + " holds value " + std::to_string(val) + ", model " + std::to_string(ms[x]->value);
@@ -332,7 +364,7 @@ int main(int argc, char** argv) {
       std::string hs, why;
       {
         World w;
-        for (int pi : h) { real_step(w, ops[pi]); model_step(m, ops[pi]); hs += opname(ops[pi]) + ";"; }
+        for (int pi : h) { real_step(w, ops[pi]); model_step(m, ops[pi]); resolve(w, m); hs += opname(ops[pi]) + ";"; }
         std::string cid = "C12|" + hs + opname(ops[oi]);
         const bool report = R.want(cid);
         std::string diag = real_step(w, ops[oi]);
@@ -394,7 +426,7 @@ int main(int argc, char** argv) {
         std::string why, hs;
         {
           World w;
-          for (size_t k = 0; k + 1 < seq.size(); k++) { real_step(w, ops[seq[k]]); model_step(m, ops[seq[k]]); }
+          for (size_t k = 0; k + 1 < seq.size(); k++) { real_step(w, ops[seq[k]]); model_step(m, ops[seq[k]]); resolve(w, m); }
           std::string diag = real_step(w, ops[seq.back()]);
           model_step(m, ops[seq.back()]);
           why = diag.empty() ? compare(w, m) : diag;
